@@ -3,7 +3,7 @@
 
      recursive_trotter_suzuki_decomposition   -> suzuki
      get_exponentiated_qubit_operator_circuit -> exp_qubit_op   (term order = the order of the input list,
-                                                 identity term -> returned phase / PHASE / CPHASE+CRZ,
+                                                 identity term -> returned phase / PHASE on the control / CPHASE on the last control,
                                                  threshold, time scalar or per-term dictionary)
      trotterize (QubitOperator branch)        -> trotterize     (time / n, circuit * n, phase ** n)
      trotterize (FermionOperator branch)      -> trotterize_mapped (the mapped qubit operator is an input:
@@ -90,7 +90,15 @@ Section TimeEvo.
       match control with
       | None => Ok ([], c)
       | Some [q] => do g <- id_gates (id_single T) q None c v; Ok (g, o_zero Ops)
-      | Some cs => do g <- id_gates (id_multi T) (id_target T) (Some cs) c v; Ok (g, o_zero Ops)
+      | Some cs =>
+        match id_target T with
+        | Some t => do g <- id_gates (id_multi T) t (Some cs) c v; Ok (g, o_zero Ops)      (* as-is before the fix *)
+        | None =>
+          match cs with
+          | [] => Err IndexError                                                          (* control[-1] *)
+          | _ => do g <- id_gates (id_multi T) (last cs 0%N) (Some (removelast cs)) c v; Ok (g, o_zero Ops)
+          end
+        end
       end
     end.
 
